@@ -10,7 +10,7 @@ from geolib import Gen, call_impl
 from proto import ET, arr_close, dec_natlist, dec_tens, natlist, run_driver
 
 ID = "C19"
-LEAN_FILES = ["Geo/Props/C19.lean"]
+LEAN_FILES = ["Geo/Props/C19.lean", "Geo/Props/C19b.lean"]
 RULE = ("arithmetic: Tensor (random rank 1-3, variance pattern, collection axes) / Point / PointCollection / Segment / Quadric x "
         "{tensor, point, ndarray, list, python & numpy scalar} x {+, -, reflected -, *, /, unary -} x {operator, numpy ufunc}; points: "
         "finite / at infinity / negative homogeneous scale / collections with mixed scales; indexing: index expressions of up to 3 "
